@@ -19,6 +19,7 @@ from typing import Callable, List
 import torch
 from packaging import version
 
+from ..library.qbytes_mm import int_mm
 from .core import dtype_info
 from .qactivation import quantize_activation
 from .qbytes import QBytesTensor
@@ -224,7 +225,7 @@ def mm(op, input, other):
             and p % 8 == 0
         ):
             # Use integer GEMM
-            out_data = torch._int_mm(input._data, other._data)
+            out_data = int_mm(input._data, other._data)
             # We must evaluate the output as float32 because the multiplication
             # of the int32 data by the scales might overflow
             # Evaluate the product of the scales in float32: it easily underflows in float16
